@@ -45,9 +45,18 @@ def search(N=3, stop_on_first=True):
             return w > 0 and c > 0
         return True
 
+    def need(threshold, size):
+        """the stated criterion of the count strategy in exact arithmetic: default majority; a fraction of the electorate rounded up (>= 1); a count"""
+        import fractions, math
+        if threshold is None:
+            return size // 2 + 1
+        if 0 < threshold < 1:
+            return max(1, math.ceil(fractions.Fraction(str(threshold)) * size))
+        return int(threshold)
+
     for size in range(1, N + 1):
         for strategy in VotingStrategy:
-            thresholds = [None, 0.3, 0.8] if strategy != VotingStrategy.THRESHOLD else [None, 0.3, 1, size]
+            thresholds = [None, 0.3, 0.8] if strategy != VotingStrategy.THRESHOLD else [None, 0.3, 0.4, 0.5, 0.75, 0.25, 1, size]
             for threshold in thresholds:
                 for min_voters in (1, size):
                     q = mk(strategy, threshold, min_voters, size)
@@ -75,6 +84,8 @@ def search(N=3, stop_on_first=True):
                                 bad = "unanimous-permit-not-PERMIT"
                             elif P + B < min_voters and res.reached:
                                 bad = "min-voters-gate"
+                            elif strategy == VotingStrategy.THRESHOLD and res.reached and P < need(threshold, size):
+                                bad = "permit-below-stated-threshold"
                             if bad is None and res.reached:
                                 # monotonicity: turning one block into a permit, or raising a permit voter's weight/confidence, keeps PERMIT
                                 for i, t in enumerate(tys):
@@ -109,6 +120,8 @@ def search(N=3, stop_on_first=True):
             P = sum(1 for t in tys if t == VoteType.PERMIT)
             if P == 0 and res.reached:
                 return n, f"EMERGENCY:no-permit-vote-yet-PERMIT: ballot={[t.name for t in tys]}", seen_known
+            if res.reached and P < need(0.3, size):
+                return n, f"EMERGENCY:permit-below-stated-threshold: {P} of {size} permit votes reached the 30% emergency quorum: ballot={[t.name for t in tys]}", seen_known
             if P == size and not res.reached:
                 return n, f"EMERGENCY:unanimous-permit-not-PERMIT: ballot={[t.name for t in tys]}", seen_known
     return n, None, seen_known
